@@ -155,6 +155,10 @@ func runT(c *kit.Ctx, r *kit.Rand, idx int) {
 			if p {
 				panicked = true
 				c.Count("T:commit:panic-already-allocated")
+				if guarded {
+					c.Fail(c.NextID(), "Commit panicked on a proposal in which IsAllocated reported every device free: an exclusive device was about to get a second owner", "",
+						map[string]interface{}{"kind": "dra-tracker", "preallocated": pre, "ops": append(append([]string{}, jops...), fmt.Sprint("commit ", n, jl))})
+				}
 				// the map iteration order decides how far Commit got: state after a panic is not compared
 				gops = append(gops, fmt.Sprintf("(DCommit %s %s)", kit.GStr(n), kit.GList(gl)))
 				jops = append(jops, fmt.Sprint("commit ", n, jl))
